@@ -86,6 +86,7 @@ impl<'a> Lexer<'a> {
 
     fn trim_whitespace(&mut self) {
         while self.has_more_chars() && self.source[0].is_whitespace() {
+            #[cfg(feature = "verif")] asca::verif::tick(103);
             self.advance();
         }
     }
@@ -101,6 +102,7 @@ impl<'a> Lexer<'a> {
         let mut n = 0;
         let mut n_pos = 0;
         while n < self.source.len() && predicate(&self.source[n]) {
+            #[cfg(feature = "verif")] asca::verif::tick(104);
             if self.source[n] == '\n' {
                 self.l_num += 1;
                 self.l_pos = 0;
@@ -302,6 +304,7 @@ impl<'a> Lexer<'a> {
     pub fn tokenise(&mut self) -> io::Result<Vec<Token>> {
         let mut tokens = Vec::new();
         loop {
+            #[cfg(feature = "verif")] asca::verif::tick(105);
             let next = self.get_next_token()?;
             if let TokenKind::EoF = next.kind {
                 tokens.push(next);
